@@ -1,0 +1,9 @@
+//go:build verif
+
+package gcs
+
+// Exports for the verification harness (build tag "verif").
+
+func VerifFastReduction(v, nHi, nLo uint64) uint64 { return fastReduction(v, nHi, nLo) }
+
+func VerifModulusNP(f *Filter) uint64 { return f.modulusNP }
